@@ -316,7 +316,7 @@ class SArray:
                 newv = conv(src(ridx))
             finally:
                 c.guards.pop()
-            loops.check_closed(newv, before)
+            loops.check_closed(newv, min(before, levels[0].stamp), allowed=loops.level_names(levels) + [str(x.z) for x in ph if hasattr(x, 'z')])
             newv = loops.subst(newv, pairs + [(zint(a), zint(b)) for a, b in zip(ph, idx)])
             if cond is True:
                 return newv
